@@ -1,0 +1,12 @@
+//go:build verif
+
+package safehtmlutil
+
+// VerifRegexps returns the source text of the package-level regular
+// expressions, for verification tooling.
+func VerifRegexps() map[string]string {
+	return map[string]string{
+		"safeTrustedResourceURLPrefixPattern": safeTrustedResourceURLPrefixPattern.String(),
+		"urlDoubleDotSegmentPattern":          urlDoubleDotSegmentPattern.String(),
+	}
+}
